@@ -313,3 +313,119 @@ func ruleSingleCloser(c *Ctx, r *Report) {
 		r.Check(strings.Contains(d, "handshake$"), rule, "Conn.decrypted:owner", "", "closed by the handshake reader goroutine when it exits", "Conn.decrypted is closed outside the reader goroutine (a concurrent send panics)")
 	}
 }
+
+// ruleCloseCancelsContext (C16, "Close unblocks a blocked Write"): the context helpers that the
+// write paths use tie the operation to the connection's lifetime. Every context they return is the
+// cancellable context created in that call, and on every path to the return a goroutine has been
+// started that waits on Conn.closed and cancels it. A shortcut that hands the caller's context
+// back leaves a Write that is blocked in the transport unaffected by Close.
+func ruleCloseCancelsContext(c *Ctx, r *Report) {
+	const rule = "close-cancels-context"
+	n := 0
+	for _, name := range []string{"(*dtls.Conn).contextWithClose", "(*dtls.Conn).contextWithCloseAndWriteDeadline"} {
+		fn := c.need(r, rule, name)
+		if fn == nil {
+			continue
+		}
+		n++
+		r.Sites += len(fn.Blocks)
+		var mk []*ssa.Call
+		for _, call := range findCalls(fn, func(nm string) bool {
+			return nm == "context.WithCancelCause" || nm == "context.WithCancel"
+		}) {
+			mk = append(mk, call)
+		}
+		// the watcher: a go statement running a literal that receives from Conn.closed.Done()
+		// and calls the cancel function of that context
+		var watchers []*ssa.Go
+		for _, b := range fn.Blocks {
+			for _, in := range b.Instrs {
+				g, ok := in.(*ssa.Go)
+				if !ok {
+					continue
+				}
+				lit := funcOfValue(g.Call.Value)
+				if lit == nil {
+					continue
+				}
+				waitsClosed, cancels := false, false
+				for _, lb := range lit.Blocks {
+					for _, li := range lb.Instrs {
+						switch x := li.(type) {
+						case *ssa.Select:
+							for _, st := range x.States {
+								if cl, isCall := st.Chan.(*ssa.Call); isCall && strings.Contains(shapeOf(cl, 0), "closed") && strings.HasSuffix(shapeOf(cl, 0), "Done()") || isCallOnClosed(st.Chan) {
+									waitsClosed = true
+								}
+							}
+						case *ssa.Call:
+							if !x.Call.IsInvoke() {
+								if _, isFn := x.Call.Value.(*ssa.Function); !isFn {
+									if _, isBuiltin := x.Call.Value.(*ssa.Builtin); !isBuiltin {
+										cancels = true // a call through a captured function value (the cancel func)
+									}
+								}
+							}
+						}
+					}
+				}
+				if waitsClosed && cancels {
+					watchers = append(watchers, g)
+				}
+			}
+		}
+		good := len(mk) == 1 && len(watchers) >= 1
+		why := ""
+		if !good {
+			why = fmt.Sprintf("%d cancellable contexts created, %d watcher goroutines on Conn.closed", len(mk), len(watchers))
+		}
+		if good {
+			ctxV := resultValue(mk[0], 0)
+			for _, b := range fn.Blocks {
+				ret, ok := b.Instrs[len(b.Instrs)-1].(*ssa.Return)
+				if !ok || b == fn.Recover {
+					continue
+				}
+				res := retResults(ret)
+				if res[0] != ctxV {
+					good = false
+					why = "a return at " + c.ipos(ret) + " hands back a context other than the one that Close cancels"
+					continue
+				}
+				dom := false
+				for _, g := range watchers {
+					if instrDominates(g, ret) {
+						dom = true
+					}
+				}
+				if !dom {
+					good = false
+					why = "a return at " + c.ipos(ret) + " is reachable without the watcher goroutine having been started"
+				}
+			}
+		}
+		r.Check(good, rule, short(fn), c.pos(fn.Pos()), "returns the context it created; a goroutine waiting on Conn.closed cancels it", "the context handed to a blocking write is not tied to Close on every path: "+why)
+	}
+	r.Floor(rule, n, 2)
+}
+
+func isCallOnClosed(v ssa.Value) bool {
+	call, ok := v.(*ssa.Call)
+	if !ok {
+		return false
+	}
+	if !strings.HasSuffix(calleeName(&call.Call), ".Done") {
+		return false
+	}
+	for _, a := range call.Call.Args {
+		if _, f, _, okF := fieldLoad(a); okF && f == "closed" {
+			return true
+		}
+	}
+	if call.Call.IsInvoke() {
+		if _, f, _, okF := fieldLoad(call.Call.Value); okF && f == "closed" {
+			return true
+		}
+	}
+	return false
+}
